@@ -138,6 +138,78 @@ def same_id_worlds():
     return [("same-id-via-replace", via_replace), ("same-id-via-detach", via_detach), ("same-id-nested", nested), ("wide-tuple", wide)]
 
 
+@dataclass(frozen=True)
+class HB(ASTNode):  # childless base ...
+    v: int = 0
+
+
+@dataclass(frozen=True)
+class HC(HB):  # ... whose subclass adds child fields
+    kid: ASTNode | None = None
+    kids: tuple[ASTNode, ...] = ()
+
+
+def check_first_use(rec, first):
+    """duplicate / replace on a class hierarchy must not depend on which class was used first.  Fresh classes per call."""
+    import sys
+    import types as _t
+
+    n = next(_hcount)
+    mod = _t.ModuleType(f"mc_c14_gen_{n}")
+    mod.__dict__.update(ASTNode=ASTNode, dataclass=dataclass)
+    sys.modules[mod.__name__] = mod
+    src = (f"@dataclass(frozen=True)\nclass HB{n}(ASTNode):\n    v: int = 0\n\n"
+           f"@dataclass(frozen=True)\nclass HC{n}(HB{n}):\n    kid: ASTNode | None = None\n    kids: tuple[ASTNode, ...] = ()\n")
+    exec(compile(src, f"<c14:{n}>", "exec", dont_inherit=True), mod.__dict__)
+    B, Cc = mod.__dict__[f"HB{n}"], mod.__dict__[f"HC{n}"]
+    NODE_REGISTRY.clear()
+    case = {"tree": ("first-use", first), "share": None, "origins": 0, "setup": ["registered", "none"]}
+    rec.count("states")
+
+    def fresh_tree():
+        return Cc(1, kid=B(2), kids=(B(3), Cc(4, kid=B(5))))
+
+    if first == "base":
+        b = B(9)
+        b.duplicate()
+        b.replace(v=8)
+        dataclasses.replace(b, v=7)
+    elif first == "bare-ASTNode":
+        ASTNode().duplicate()
+    else:
+        fresh_tree().duplicate()
+    t = fresh_tree()
+    rec.count("transitions"); rec.count("traces"); rec.count("evaluations"); rec.count("nontrivial")
+    d = t.duplicate()
+
+    def walk2(x):
+        out = [x]
+        if isinstance(x, Cc):
+            if x.kid is not None:
+                out += walk2(x.kid)
+            for y in x.kids:
+                out += walk2(y)
+        return out
+
+    on, dn = walk2(t), walk2(d)
+    ids = {id(x) for x in on}
+    if len(on) != len(dn) or any(id(x) in ids for x in dn):
+        rec.violation("C14|duplicate|shares-object", case, f"first used: {first}; duplicate() of a subclass instance re-uses node objects of the original")
+    elif any(type(a) is not type(b) or a.content_id != b.content_id or NODE_REGISTRY.get(b.id) is not b for a, b in zip(on, dn)) or not (d == t):
+        rec.violation("C14|duplicate|unfaithful", case, f"first used: {first}; the copy differs from the original")
+    rec.outcome(f"first-use:{first}")
+    from pyoak import serialize as _ser, types as _pt
+
+    for c in (B, Cc):
+        _ser.TYPES.pop(c.__name__, None)
+        for dd in (_pt._TYPE_TO_ALL_FIELDS, _pt._TYPE_TO_CHILD_FIELDS, _pt._TYPE_TO_PROPS):
+            dd.pop(c, None)
+    sys.modules.pop(mod.__name__, None)
+
+
+_hcount = itertools.count()
+
+
 def build_indexed(builder):
     root = builder()
     index = {}
@@ -317,6 +389,9 @@ def run_shard(cfg):
             if idx % cfg["of"] == cfg["k"]:
                 rec.rank = 10**7 + idx
                 check_world(rec, ("shaped", name), None, 0, setup, builder=b)
+    if cfg["k"] == 0:
+        for first in ("base", "derived", "bare-ASTNode"):
+            check_first_use(rec, first)
     rec.bound = {"max_nodes": cfg["n"], "setups": len(SETUPS), "same_id_worlds": len(same_id_worlds())}
     return rec.result()
 
@@ -326,6 +401,10 @@ def replay(case, cfg):
     share = None
     if case.get("share"):
         share = {tuple(tuple(s) for s in k): tuple(tuple(s) for s in v) for k, v in case["share"]}
+    if case["tree"][0] == "first-use":
+        for first in ("base", "derived", "bare-ASTNode"):
+            check_first_use(rec, first)
+        return rec.result()["violations"]
     builder = None
     if case["tree"][0] == "shaped":
         builder = dict(same_id_worlds())[case["tree"][1]]
